@@ -29,6 +29,13 @@ func (e *Engine) setupVerifIntrinsics() {
 	in[p+"Implies"] = func(e *Engine, fr *frame, a []Value) Value {
 		return e.ts.BOr(e.ts.BNot(a[0].(*Term)), a[1].(*Term))
 	}
+	in[p+"Count"] = func(e *Engine, fr *frame, a []Value) Value {
+		sum := e.ts.Const(64, 0)
+		for _, b := range a[0].(Slice) {
+			sum = e.ts.Bin(opAdd, sum, e.ts.Ite(b.(*Term), e.ts.Const(64, 1), e.ts.Const(64, 0)))
+		}
+		return sum
+	}
 	in[p+"Symbolic"] = func(e *Engine, fr *frame, a []Value) Value { return e.ts.tru }
 	in[p+"Byte"] = func(e *Engine, fr *frame, a []Value) Value { return e.namedVar(e.strArg(a[0]), 8) }
 	in[p+"Bool"] = func(e *Engine, fr *frame, a []Value) Value {
